@@ -77,6 +77,9 @@ type clEngine struct {
 	wantSolvency bool     // run the everybody-withdraws oracle right after this op
 	auth         []int    // indices (into types.SupportedUptimes) of the uptimes authorised in this history (AuthorizedUptimes param)
 	forceUptime  int      // uptime index the next incentive record must use (scripted sequences); -1 = random
+	extra        []*clExtra // additional concentrated pools of the history (cl_pools_test.go), oracle-only
+	resetDone    bool       // the `clp reset` line of the history has been written
+	mainPool     uint64     // pool id of the pool under test while the book oracle runs on another pool
 }
 
 // scriptStep: one op of a directed sequence (property C08: accrue -> partial withdraw / add / transfer -> (swap) -> claim
@@ -489,6 +492,24 @@ func runCL(t *testing.T, seed int64, n int, dir string) {
 		if r.Intn(2) == 0 { // the incentive accumulators have their own migration threshold
 			h.App.ConcentratedLiquidityKeeper.SetIncentivePoolIDMigrationThreshold(h.Ctx, 1<<40)
 		}
+		// other concentrated pools with LOWER pool ids (cl_pools_test.go); one history in eight is the only pool of its chain
+		nLower, nHigher := 0, 0
+		if r.Intn(8) != 0 {
+			nLower, nHigher = r.Intn(3), r.Intn(3)
+			if r.Intn(6) == 0 { // pool ids 1 / 10 / 11
+				if r.Intn(2) == 0 {
+					nLower = 1
+					e.addExtraPool(r.Intn(3) != 0)
+					e.fillerPools(8)
+					nLower = 0
+				} else {
+					nHigher = -1
+				}
+			}
+		}
+		for i := 0; i < nLower; i++ {
+			e.addExtraPool(r.Intn(3) != 0)
+		}
 		p := h.PrepareCustomConcentratedPool(e.accs[0], clDenom0, clDenom1, uint64(e.spacing), e.spf)
 		e.poolId = p.GetId()
 		scale, err := h.App.ConcentratedLiquidityKeeper.VerifSpreadFactorScalingFactor(h.Ctx, e.poolId)
@@ -502,6 +523,18 @@ func runCL(t *testing.T, seed int64, n int, dir string) {
 		e.inc.t0 = h.Ctx.BlockTime()
 		e.scale, e.ifactor = scale, ifactor
 		o.Emit(fmt.Sprintf("clp reset %d %s %s %s %d", e.spacing, e.spf.BigInt(), scale.BigInt(), ifactor.BigInt(), authMask), "ok", true)
+		e.resetDone = true
+		if nid := h.App.ConcentratedLiquidityKeeper.GetNextPositionId(h.Ctx); nid != 1 {
+			o.Emit(fmt.Sprintf("clp setnextid %d", nid), "ok", true)
+		}
+		if nHigher < 0 { // the pool under test is pool 1 (or follows the lower ones); fill up to id 9, then pools 10 and 11
+			e.fillerPools(int(9 - e.poolId))
+			nHigher = 2
+		}
+		for i := 0; i < nHigher; i++ {
+			e.addExtraPool(r.Intn(3) != 0)
+		}
+		o.Count(fmt.Sprintf("pools.lower=%d,higher=%d", len(e.extra)-nHigher, nHigher))
 		o.Count("pool.incfactor" + ifactor.String()[:4])
 		o.Count("pool.scale" + scale.String()[:4])
 		o.Count(fmt.Sprintf("pool.spacing%d", e.spacing))
@@ -515,9 +548,14 @@ func runCL(t *testing.T, seed int64, n int, dir string) {
 			done++
 			e.opn++
 			e.landedNow, e.wantSolvency = false, false
+			xsnap := e.extraSnapshots()
 			e.step()
+			if e.opClass != "other-pool" { // frame: an op on the pool under test changes nothing in the other pools
+				e.extraFrame(xsnap)
+			}
 			// C07 right after the op (in particular right after a swap that ended exactly on an initialised tick)
 			e.oracleBookkeeping()
+			e.extraBookkeeping()
 			// partial fills at the price limit from this state, on a discarded branch (more often while the history is young:
 			// few ticks, so that the final integer conversion is not buried under the per-step roundings)
 			if len(e.pos) > 0 && (e.opn <= 12 || e.r.Intn(4) == 0) {
@@ -560,6 +598,11 @@ func (e *clEngine) step() {
 				e.h.FundAcc(a, sdk.NewCoins(sdk.NewCoin(d, osmomath.NewIntFromBigInt(pow10(30+e.mag)))))
 			}
 		}
+	}
+	if len(e.extra) > 0 && len(e.queue) == 0 && e.r.Intn(12) == 0 { // an op on one of the other pools (oracle-only)
+		e.opClass = "other-pool"
+		e.otherPoolOp()
+		return
 	}
 	k := e.h.App.ConcentratedLiquidityKeeper
 	ms := cl.NewMsgServerImpl(k)
